@@ -1,25 +1,51 @@
-"""C26 - Array_ and pointer wrappers: value semantics.  PARTIAL: only the growth policy of Array_<T,X>
-(calcNewCapacityForGrowthBy + isGrowthOK + isSizeOK + minAlloc) is under contract here (unbounded, X := unsigned);
-insert/erase/resize/... and the pointer wrappers were not reached in the time available and are listed as not decided."""
+"""C26 - Array_ and pointer wrappers: value semantics.
+Back end A (CBMC), route M2: every function body is cut from Array.h / ClonePtr.h / CloneOnWritePtr.h / ReferencePtr.h on each run
+(checks/_help_c26.py holds the rewrite tables only).
+  1. growth policy calcNewCapacityForGrowthBy (+isGrowthOK/isSizeOK/minAlloc): dfcc contract, UNBOUNDED            (specs/C26/array_growth.h)
+  2. Array_ element-moving methods with T := Elem (payload + ghost life-cycle cell per slot); T's special members and allocN/freeN are
+     contracted stubs: representation invariant + whole-sequence std::vector postcondition + exact ctor/dtor/alloc counts.
+     BOUNDED stand-ins: capacity <= 6, n <= 3, every (capacity,size,position,count) enumerated CONCRETELY inside CBMC (so all pointers and
+     loop trip counts resolve during symbolic execution), element values / moved-from garbage symbolic; max_size = INT_MAX, plus
+     *.maxsizeN units with max_size 1..5 for the exception/saturation paths of the four growth code paths. swap: UNBOUNDED (loop-free).
+                                                                                                                   (specs/C26/array_model.h, array_harness.h)
+  3. ClonePtr / CloneOnWritePtr / ReferencePtr with T := Obj and contracted clone()/delete/new long/delete long: loop-free, all handle
+     states symbolic, arbitrary number of unseen sharers => UNBOUNDED                                              (specs/C26/ptr_model.h, ptr_harness.h)
+  4. native replay driver replay/c26_replay.cpp: Array_<Tracked> vs std::vector (exhaustive small scope + random sequences) and all five
+     pointer wrappers on the real headers; also the native witnesses of the defect candidates (modes witness-*).
+Dropped from the CBMC claim: ResetOnCopy / ReinitOnCopy (their copy semantics live in mem-initialiser chains, default member initialisers and
+partial-specialisation selection, not in function bodies: nothing to cut; exercised by the native replay only); loop-contract (unbounded) proofs
+of the range primitives and moveElementsUp/Down (not attempted in the time available: covered inside the bounded stand-ins only)."""
 import os, re, json
 from vlib import *
 from extract import *
+import _help_c26 as H
 
 PID = "C26"
 META = dict(
     category="other",
-    text=("CBMC contract on Array_<T,unsigned>::calcNewCapacityForGrowthBy with isGrowthOK/isSizeOK/minAlloc cut from Array.h each run: for every capacity "
-          "<= max_size and every n it throws exactly when capacity+n > max_size, otherwise returns a capacity >= capacity+n, <= max_size, >= 2*capacity unless "
-          "that exceeds max_size, >= 4, with no size_type wrap-around. Element-moving operations (insert/erase/resize/...) and ClonePtr/CloneOnWritePtr/"
-          "ReferencePtr/ResetOnCopy are NOT decided by this check."),
-    note="Trusted: CBMC 6.11 + MiniSat, extractor rule tables; assumed: representation invariant capacity <= max_size; X := unsigned (max_size = INT_MAX).",
-    technique="CBMC function contract (dfcc) on mechanically extracted real code",
+    text=("CBMC on Array_<T,X> and the pointer wrappers cut mechanically from the headers each run (T := element with a ghost raw/live life-cycle cell; "
+          "T's constructors/destructor, allocN/freeN, clone()/delete as contracted stubs): growth policy (unbounded, all capacities and n); insert(p,n,v)/"
+          "insert(p,v)/insertGapAt/growAtEnd/erase(first,last)/erase(p)/eraseFast/push_back (3 forms)/pop_back/resize (2 forms)/reserve/shrink_to_fit/clear "
+          "preserve the representation invariant, yield the std::vector result over the WHOLE sequence and construct/destroy every element exactly once with "
+          "the documented call counts - bounded stand-in: capacity <= 6, n <= 3, every size and position, symbolic values; swap unbounded; ClonePtr/"
+          "CloneOnWritePtr/ReferencePtr copy/move/assign/upd/detach/reset/release semantics and use count == number of live handles for all handle states "
+          "(loop-free, unbounded). ResetOnCopy/ReinitOnCopy: native replay only."),
+    note=("Trusted: CBMC 6.11 + MiniSat, extractor rule tables. Assumed: life-cycle contracts of T's special members, allocN/freeN, clone()/delete; "
+          "X := unsigned; owner arrays only; source value not aliased to an element except in array.alias.* (open finding F11); n <= max_size for "
+          "reserve/resize (not checked by the code); insert with a huge count (F10, fixed) is an obligation; growWithGap (unreachable dead code) not claimed."),
+    technique="plain CBMC harnesses with contracted stubs + dfcc function contract on mechanically extracted real code; native differential replay",
     design_ref="4 C26")
 SPEC = os.path.join(VERIF, "specs", PID)
-ARRAY_H = os.path.join(REPO, "SimTKcommon/include/SimTKcommon/internal/Array.h")
+ARRAY_H = H.ARRAY_H
+CAPMAX, NMAX = 6, 3
+BOUND = "capacity <= %d, inserted count n <= %d, resize/reserve target <= capacity+%d (<= %d); all sizes <= capacity and all positions enumerated, element values symbolic" % (CAPMAX, NMAX, NMAX, CAPMAX + NMAX)
+SBOUND = "max_size in [1,%d] (narrow index types), capacity <= min(3, max_size), n <= 2; all sizes and positions enumerated, element values symbolic" % 5
 
 
-def build_unit(ctx):
+# ------------------------------------------------------------------------------------------------
+# 1. growth policy (unchanged from the first version of this check)
+# ------------------------------------------------------------------------------------------------
+def build_growth_unit(ctx):
     parts = ['#include "%s/array_growth.h"\n' % SPEC]
 
     def fn(anchor, name, header, rules, occurrence=1):
@@ -60,24 +86,206 @@ def build_unit(ctx):
     return path
 
 
+# ------------------------------------------------------------------------------------------------
+# 2. element-moving methods: bounded enumeration units
+# ------------------------------------------------------------------------------------------------
+def pairs(capmax):
+    return [(c, s) for c in range(capmax + 1) for s in range(c + 1)]
+
+
+def chunks(capmax, weight, budget):
+    """split the (capacity,size) pairs (in driver order) into contiguous index ranges of roughly `budget` calls"""
+    out, lo, acc = [], 0, 0
+    ps = pairs(capmax)
+    for i, (c, s) in enumerate(ps):
+        w = weight(c, s)
+        if acc and acc + w > budget:
+            out.append((lo, i - 1)); lo, acc = i, 0
+        acc += w
+    out.append((lo, len(ps) - 1))
+    return out
+
+
+# method -> (function label, weight(cap,size) = number of concrete calls for that pair)
+METHODS = [
+    ("insert_n", "Array_::insert(p,n,value)", lambda c, s: (s + 1) * (NMAX + 1)),
+    ("insert_one", "Array_::insert(p,value)", lambda c, s: s + 1),
+    ("insertGapAt", "Array_::insertGapAt", lambda c, s: (s + 1) * NMAX),
+    ("growWithGap", "Array_::growWithGap", lambda c, s: (s + 1) * NMAX),
+    ("growAtEnd", "Array_::growAtEnd", lambda c, s: NMAX),
+    ("erase_range", "Array_::erase(first,last1)", lambda c, s: (s + 1) * (s + 2) // 2),
+    ("erase_one", "Array_::erase(p)", lambda c, s: s),
+    ("eraseFast", "Array_::eraseFast", lambda c, s: s),
+    ("pop_back", "Array_::pop_back", lambda c, s: 1),
+    ("clear", "Array_::clear", lambda c, s: 1),
+    ("push_back", "Array_::push_back(const T&)", lambda c, s: 1),
+    ("push_back_move", "Array_::push_back(T&&)", lambda c, s: 1),
+    ("push_back_default", "Array_::push_back()", lambda c, s: 1),
+    ("resize", "Array_::resize(n)", lambda c, s: c + NMAX + 1),
+    ("resize_fill", "Array_::resize(n,initVal)", lambda c, s: c + NMAX + 1),
+    ("reserve", "Array_::reserve", lambda c, s: c + NMAX + 1),
+    ("shrink_to_fit", "Array_::shrink_to_fit", lambda c, s: 1),
+]
+SMALLMAX_METHODS = ["insert_n", "push_back", "growAtEnd", "growWithGap"]     # the four distinct growth code paths
+PLAIN = ["--no-malloc-may-fail", "--no-pointer-check", "--unwind", "16", "--unwinding-assertions", "--object-bits", "12"]
+
+
+# Array_::growWithGap is private dead code (no caller anywhere in the tree), so its defect is not reachable through the API and is not a property
+# violation: the harness h_growWithGap exists in specs/C26/array_harness.h but the unit is never run (it would fail) and cannot affect the exit code.
+NOT_RUN = {
+    "growWithGap": "Array_::growWithGap (private, dead code: no caller, not reachable through the API) passes newData+size() instead of newData+size()+gapSz as "
+                   "the end of the second moveConstructThenDestructSource range; unit array.growWithGap.* exists but is deliberately not run and not claimed. "
+                   "insertGapAt, which every insert uses, has the correct bound and is proved (bounded).",
+}
+THOROUGH_ONLY = {"insertGapAt"}
+HUGE_BOUND = ("capacity <= 4, every size and position enumerated; five representative counts per array: max_size-size+1, UINT_MAX-size, and the three "
+              "wrap-around cases size+n == 0, == capacity-size, == size-1 (mod 2^32)")
+ALIAS_BOUND = "capacity <= 4, n <= 2, every size, position and aliased element enumerated, element values symbolic"
+
+
+def array_jobs(ctx, unit_c):
+    jobs = []
+    for m, label, w in METHODS:
+        if m in NOT_RUN:
+            ctx.not_decided.append("NOT CLAIMED, unit not run: " + NOT_RUN[m])
+            continue
+        if m in THOROUGH_ONLY and ctx.tier != "thorough":
+            continue        # insertGapAt is exercised through insert(p,n,v)/insert(p,v) in the quick tier (same postconditions via insert_post)
+        for lo, hi in chunks(CAPMAX, w, 48):
+            jobs.append(lambda m=m, label=label, lo=lo, hi=hi: cbmc_unit(
+                ctx, "array.%s.pairs%02d-%02d" % (m, lo, hi), [unit_c], "h_" + m, no_dfcc=True, cbmc_args=PLAIN,
+                cc_args=["-DCAPMAX=%d" % CAPMAX, "-DNMAX=%d" % NMAX, "-DPAIR_LO=%d" % lo, "-DPAIR_HI=%d" % hi],
+                bounded=BOUND, function=label, timeout=200, min_obligations=12, require_props=[r"h_%s\.|t_%s\.|_post\." % (m, m)]))
+    for m in SMALLMAX_METHODS:
+        if m in NOT_RUN:
+            continue
+        if m == "growAtEnd" and ctx.tier != "thorough":
+            continue        # growAtEnd's exception/saturation paths are exercised through push_back.maxsizeN in the quick tier
+        label = [l for mm, l, w in METHODS if mm == m][0]
+        for mx in range(1, 6):
+            jobs.append(lambda m=m, label=label, mx=mx: cbmc_unit(
+                ctx, "array.%s.maxsize%d" % (m, mx), [unit_c], "h_" + m, no_dfcc=True, cbmc_args=PLAIN,
+                cc_args=["-DCAPMAX=3", "-DNMAX=2", "-DSMALLMAX", "-DMX_LO=%du" % mx, "-DMX_HI=%du" % mx],
+                bounded=SBOUND, function=label, timeout=200, min_obligations=12, require_props=[r"_post\.|t_%s\." % m]))
+    # F10 (fixed in /repo by 1c61066a): insert with n > max_size - size() throws, array unchanged; n symbolic
+    jobs.append(lambda: cbmc_unit(ctx, "array.insert.hugecount", [unit_c], "h_insert_huge", no_dfcc=True, cbmc_args=PLAIN,
+                                  cc_args=["-DCAPMAX=4", "-DNMAX=%d" % NMAX], bounded=HUGE_BOUND, function="Array_::insert(p,n,value) / insertGapAt",
+                                  timeout=250, min_obligations=12, require_props=[r"t_insert_huge\.assertion"]))
+    # F11 (OPEN known finding): the value argument aliases an element of the same array. These two units fail on the pinned tree.
+    jobs.append(lambda: cbmc_unit(ctx, "array.alias.push_back_full", [unit_c], "h_alias_push_back_full", no_dfcc=True, cbmc_args=PLAIN,
+                                  cc_args=["-DCAPMAX=4", "-DNMAX=2"], bounded=ALIAS_BOUND, function="Array_::push_back(const T&) [value aliases an element]",
+                                  timeout=250, min_obligations=8, require_props=[r"t_alias_push_back_full\.assertion"]))
+    jobs.append(lambda: cbmc_unit(ctx, "array.alias.insert_within_capacity", [unit_c], "h_alias_insert_within_capacity", no_dfcc=True, cbmc_args=PLAIN,
+                                  cc_args=["-DCAPMAX=4", "-DNMAX=2"], bounded=ALIAS_BOUND, function="Array_::insert(p,n,value) [value aliases an element]",
+                                  timeout=250, min_obligations=8, require_props=[r"t_alias_insert_within_capacity\.assertion"]))
+    jobs.append(lambda: cbmc_unit(ctx, "array.swap", [unit_c], "h_swap", no_dfcc=True, cbmc_args=PLAIN, function="Array_::swap",
+                                  timeout=100, min_obligations=3, require_props=[r"h_swap\.assertion"]))
+    jobs.append(lambda: cover_unit(ctx, "array.cover", [unit_c], "h_cover", cbmc_args=["--no-malloc-may-fail", "--no-pointer-check", "--unwind", "16"],
+                                   expect_min=6, function="Array_ harness preconditions"))
+    return jobs
+
+
+PTR_HARNESSES = [("cow.copy_ctor", "h_cow_copy_ctor", "CloneOnWritePtr::CloneOnWritePtr(const CloneOnWritePtr&)"),
+                 ("cow.assign_copy", "h_cow_assign_copy", "CloneOnWritePtr::operator=(const CloneOnWritePtr&)"),
+                 ("cow.assign_self", "h_cow_assign_self", "CloneOnWritePtr::operator= (self)"),
+                 ("cow.upd_detach", "h_cow_upd", "CloneOnWritePtr::upd/detach"),
+                 ("cow.copy_then_write", "h_cow_copy_then_write", "CloneOnWritePtr copy + upd"),
+                 ("cow.reset_destroy", "h_cow_reset", "CloneOnWritePtr::reset()/~CloneOnWritePtr"),
+                 ("cow.reset_ptr", "h_cow_reset_ptr", "CloneOnWritePtr::reset(T*)"),
+                 ("cow.release", "h_cow_release", "CloneOnWritePtr::release"),
+                 ("cow.move", "h_cow_move", "CloneOnWritePtr move ctor/assign"),
+                 ("cow.from_object", "h_cow_from_object", "CloneOnWritePtr(T*)/(const T*)/operator=(const T&)"),
+                 ("cow.swap", "h_cow_swap", "CloneOnWritePtr::swap"),
+                 ("cloneptr.copy_ctor", "h_clone_copy_ctor", "ClonePtr::ClonePtr(const ClonePtr&)"),
+                 ("cloneptr.assign_copy", "h_clone_assign_copy", "ClonePtr::operator=(const ClonePtr&)"),
+                 ("cloneptr.move", "h_clone_move", "ClonePtr move ctor/assign"),
+                 ("cloneptr.reset_release_destroy", "h_clone_reset_release", "ClonePtr::release/reset(T*)/~ClonePtr"),
+                 ("cloneptr.from_object", "h_clone_from_object", "ClonePtr(const T&)/(T*)/operator=(const T&)/swap"),
+                 ("referenceptr.all", "h_ref", "ReferencePtr copy/move/reset/swap/release")]
+
+
+def build_ptr_unit(ctx):
+    path = os.path.join(ctx.out, "ptr_unit.c")
+    open(path, "w").write('#include "%s/ptr_model.h"\n%s\n#include "%s/ptr_harness.h"\n' % (SPEC, H.build_ptr_unit(ctx), SPEC))
+    return path
+
+
+def ptr_jobs(ctx, unit_c):
+    args = ["--no-malloc-may-fail", "--unwind", "5", "--unwinding-assertions"]
+    jobs = [lambda u=u, h=h, f=f: cbmc_unit(ctx, "ptr." + u, [unit_c], h, no_dfcc=True, cbmc_args=args, function=f, timeout=120, min_obligations=20,
+                                            require_props=[r"%s\.assertion" % h, r"check_\w+_world\.assertion" if h != "h_ref" else r"assertion"])
+            for u, h, f in PTR_HARNESSES]
+    jobs.append(lambda: cover_unit(ctx, "ptr.cover", [unit_c], "h_ptr_cover", cbmc_args=["--no-malloc-may-fail", "--unwind", "5"], expect_min=4,
+                                   function="pointer-wrapper harness preconditions"))
+    return jobs
+
+
+def build_array_unit(ctx):
+    u = H.build_array_unit(ctx)
+    path = os.path.join(ctx.out, "array_methods_unit.c")
+    open(path, "w").write('#include "%s/array_model.h"\n%s\n#include "%s/array_harness.h"\n' % (SPEC, u.text(), SPEC))
+    return path
+
+
 def main(ctx):
     ctx.level = "other"
     try:
-        unit_c = build_unit(ctx)
+        growth_c = build_growth_unit(ctx)
+        array_c = build_array_unit(ctx)
+        ptr_c = build_ptr_unit(ctx)
     except ExtractionError as e:
         ctx.undecide("extraction: %s" % e)
         return ctx.finish()
-    cbmc_unit(ctx, "array.calcNewCapacityForGrowthBy", [unit_c], "h_calc", enforce="calcNewCapacityForGrowthBy",
-              cbmc_args=["--unsigned-overflow-check", "--signed-overflow-check", "--conversion-check", "--pointer-check"],
-              require_props=[r"postcondition", r"overflow"], function="Array_::calcNewCapacityForGrowthBy", timeout=200, min_obligations=8)
+    jobs = [lambda: cbmc_unit(ctx, "array.calcNewCapacityForGrowthBy", [growth_c], "h_calc", enforce="calcNewCapacityForGrowthBy",
+                              cbmc_args=["--unsigned-overflow-check", "--signed-overflow-check", "--conversion-check", "--pointer-check"],
+                              require_props=[r"postcondition", r"overflow"], function="Array_::calcNewCapacityForGrowthBy", timeout=200, min_obligations=8)]
+    jobs += array_jobs(ctx, array_c)
+    jobs += ptr_jobs(ctx, ptr_c)
+    parallel(jobs)
     ctx.trust("cbmc/goto-cc/goto-instrument 6.11.0 (C front end), MiniSat")
-    ctx.trust("tools/extract.py rule tables (extraction_report.json lists every rewrite and dropped token)")
-    ctx.assume("X := unsigned: size_type = unsigned, max_size() = INT_MAX (ArrayIndexTraits<unsigned>); other index types not instantiated")
-    ctx.assume("representation invariant capacity() <= max_size() (not re-established here: the mutating methods are not under contract)")
-    ctx.assume("SimTK_ERRCHK3_ALWAYS modelled as ghost flag + return (exception plumbing rule)")
-    ctx.not_decided += ["insertGapAt, growWithGap, growAtEnd, moveElementsUp/Down, erase, eraseFast, push_back, pop_back, insert, resize, reserve, shrink_to_fit, clear, swap: "
-                        "element values/order preserved and each element constructed/destroyed exactly once - NOT under contract in this check (not reached in the time available)",
-                        "ArrayView_ sub-range views and aliasing", "ClonePtr, CloneOnWritePtr, ReferencePtr, ResetOnCopy, ReinitOnCopy copy semantics",
-                        "index types other than unsigned; move-only element types"]
-    ctx.explanation = "Only the growth policy is proved (unbounded, all capacities and n); everything else of C26 is listed as not decided."
-    return ctx.finish()
+    ctx.trust("tools/extract.py rule tables + checks/_help_c26.py (extraction_report.json lists every rewrite and dropped token)")
+    ctx.assume("X := unsigned: size_type = packed_size_type = unsigned; max_size() = INT_MAX (ArrayIndexTraits<unsigned>) in the main units, 1..5 in the *.maxsizeN units")
+    ctx.assume("T's special members obey the life-cycle protocol of specs/C26/array_model.h (construct into raw storage only, destroy/read live objects only; "
+               "moved-from objects stay live with unspecified value); allocN returns fresh raw storage, never fails")
+    ctx.assume("owner arrays only (nAllocated != 0 or data == 0); SimTK_ERRCHK debug checks are obligations (proved), SimTK_ERRCHK_ALWAYS modelled as ghost flag + return")
+    ctx.assume("forwarding one-liners Array_::f() -> ArrayView_::f() -> ArrayViewConst_::f() are collapsed to the base definition")
+    ctx.assume("value/initVal argument does not alias an element of the array itself in every unit except array.alias.* (aliasing = open known finding F11)")
+    ctx.assume("array.* units run with --no-pointer-check (CBMC flags the well-defined comparisons/differences of null pointers of a default-constructed array); element "
+               "accesses happen only inside T's stubs, which assert non-null/in-bounds/slot-aligned pointers (SLOT_OK) and the RAW/LIVE/FREED state of the slot; freeN marks "
+               "blocks FREED instead of calling free() (use-after-free and double free are then life-cycle violations)")
+    ctx.assume("reserve(n)/resize(n): n <= max_size() (the code does not check this; capacity could exceed max_size otherwise)")
+    ctx.assume("pointer wrappers: T := Obj; T::clone() returns a new heap object with equal value; `delete p` requires a live object (executable contract bodies in "
+               "specs/C26/ptr_model.h); template conversions CloneOnWritePtr<U> -> CloneOnWritePtr<T> instantiated with U := T")
+    ctx.assume("constructor mem-initialiser lists are turned into statements at the top of the constructor body (rule 'constructor mem-initialiser list -> statements' in extraction_report.json)")
+    ctx.not_decided += [
+        "reserve(n)/resize(n) with n > max_size(): the code never checks it (capacity could exceed max_size for narrow index types); kept as a precondition",
+        "value argument aliasing an element beyond the two call shapes of finding F11 (push_back(a[i]) on a full array, insert(p,n,a[i]) within capacity): "
+        "insert(p,a[i]), resize(n,a[i]), aliasing together with reallocation in insert",
+        "ResetOnCopy / ReinitOnCopy: not under CBMC contract (no function bodies to cut), native replay only",
+        "unbounded (loop-contract) proofs of defaultConstruct/fillConstruct/destruct/moveConstructThenDestructSource ranges and moveElementsUp/Down: not attempted; bounded only"]
+    ctx.not_decided += ["Array_ sequences beyond the bound (capacity > 6, n > 3) for the element-moving methods",
+                        "copy/move construction and assignment of Array_, assign(), iterator-range insert, emplace, ArrayView_ sub-range views and aliasing, non-owner arrays",
+                        "index types other than unsigned; move-only element types; T's own operations throwing"]
+    ctx.explanation = ("Growth policy, swap and the three pointer wrappers are complete proofs over the stated models; every element-moving Array_ method is a bounded "
+                       "stand-in (capacity <= 6, n <= 3) with whole-sequence postconditions, life-cycle protocol and exact constructor/destructor counts. F10 (huge insert count) is an "
+                       "obligation that passes on the fixed tree; F11 (value argument aliases an element) is checked by array.alias.* and reported as a known finding.")
+    return ctx.finish(replayer=lambda ob: replay(ctx, ob))
+
+
+_exe = {}
+
+
+def replay(ctx, ob):
+    if "exe" not in _exe:
+        _exe["exe"] = native_build(ctx, "c26_replay", os.path.join(VERIF, "replay/c26_replay.cpp"))
+    mode, wc = "default", None
+    if ob.unit.startswith("array.alias."):
+        mode, wc = "witness-alias", "value-argument-aliases-element"
+    elif ob.unit.startswith("array.insert.hugecount"):
+        mode = "witness-wrap"
+    rc, o, e, t = run([_exe["exe"]] + ([mode] if mode != "default" else []), 120)
+    reproduced = bool(re.search(r"^REPRODUCED:", o, re.M))
+    d = dict(cmd="c26_replay " + mode, rc=rc, output=o[-2500:])
+    if wc and reproduced:
+        d["witness_class"] = wc
+    return d, reproduced
